@@ -570,7 +570,7 @@ impl Xot {
     /// using [`Xot::write`] or [`Xot::to_string`].
     pub fn create_missing_prefixes(&mut self, node: Node) -> Result<(), Error> {
         let node = if self.is_document(node) {
-            self.document_element(node).unwrap()
+self.document_element(node)?
         } else {
             node
         };
